@@ -224,8 +224,10 @@ def gen_cps(rng, allow_missing=True):
     missing = False
     if allow_missing and rng.random() < 0.06 and len(cps) > n:
         victim = rng.randrange(n)
-        cps = [c for c in cps if c != [victim, victim]]
-        missing = any(victim in c for c in cps)
+        rest = [c for c in cps if c != [victim, victim]]
+        if rest:            # an empty product list is outside the domain (np.array([]) is not integral: ValueError)
+            cps = rest
+            missing = any(victim in c for c in cps)
     return labels, cps, dict(dup=dup, missing=missing)
 
 
@@ -430,14 +432,46 @@ def compare_cx(ctx, cfg, route, impl, mres, tol_autos=None):
 
 
 # --------------------------------------------------------------------------- route kernel
+def kernel_wire(cfg):
+    T, F = cfg['T'], cfg['F']
+    wl = [[[lit_wire(x) for x in cell] for cell in row] for row in cfg['w']]
+    one = [[[1, 0] for _ in range(F)] for _ in range(T)]
+    return wire15(cfg, w=wl, wc=one, scaled=not cfg['divide'])
+
+
+def avg_wire(cfg):
+    T, F, B = cfg['T'], cfg['F'], cfg['B']
+    samples = [[[[cfg['vis'][t][f][b][0], cfg['vis'][t][f][b][1], cfg['w'][t][f][b], int(cfg['flags'][t][f][b])]
+                 for b in range(B)] for f in range(F)] for t in range(T)]
+    return [155, [T, F, B, cfg['timeav'], cfg['chanav'], int(cfg['flagav']), samples]]
+
+
+def cross_check_extraction(ctx):
+    """thorough tier: the same wire cases evaluated by vm_compute inside Coq and by the extracted OCaml model."""
+    import random
+    from vh import core
+    rng = random.Random(ctx.rng.getrandbits(48))
+    cases = [kernel_wire(gen_kernel(rng)) for _ in range(25)] + [avg_wire(gen_avg(rng)) for _ in range(25)]
+    cases += [[152, [4, [2, 1], [1, 2], [[10, 0], [14, 0], [7, 1], [1], []]]],
+              [153, [1, 1, 0, [[[3, 0], [1, 1]], [[], [1, 0]]]]],
+              [154, [[[[0, 0], [0, 0]], [[2, 0], [1, 0]], [[4, 0], [4, 0]]], [[3, 0], [1], [-1], [], [9, 1]]]]]
+    a = ctx.model(cases)
+    b = core.run_model_in_coq(cases, 'c15')
+    ctx.extra['extraction_cross_checked_cases'] = len(cases)
+    for i, (x, y) in enumerate(zip(a, b)):
+        if x != y:
+            ctx.disagree('route=extraction;symptom=ocaml_differs_from_vm_compute', dict(route='extraction', case=cases[i]),
+                         x, y, 'extracted OCaml model and vm_compute inside Coq disagree', kind='tie')
+            break
+
+
 def run_kernel(ctx, cfg):
     from katdal.vis_flags_weights import corrprod_to_autocorr, weight_power_scale
     cps = cfg['cps']
     T, F, B = cfg['T'], cfg['F'], len(cps)
     divide = bool(cfg['divide'])
     wl = [[[lit_wire(x) for x in cell] for cell in row] for row in cfg['w']]
-    one = [[[1, 0] for _ in range(F)] for _ in range(T)]
-    mo = ctx.model([wire15(cfg, w=wl, wc=one, scaled=not divide)])[0]
+    mo = ctx.model([kernel_wire(cfg)])[0]
     if mo == [-999]:
         ctx.disagree('route=kernel;symptom=model_rejects_case', cfg, None, mo, 'wire format error', kind='tie')
         return
@@ -1019,9 +1053,7 @@ def run_avg(ctx, cfg):
                    np.complex64).reshape(T, F, B)
     w = np.array([[[lit_float(x) for x in cell] for cell in row] for row in cfg['w']], np.float32).reshape(T, F, B)
     fl = np.array(cfg['flags'], bool).reshape(T, F, B)
-    samples = [[[[cfg['vis'][t][f][b][0], cfg['vis'][t][f][b][1], cfg['w'][t][f][b], int(cfg['flags'][t][f][b])]
-                 for b in range(B)] for f in range(F)] for t in range(T)]
-    mo = ctx.model([[155, [T, F, B, cfg['timeav'], cfg['chanav'], int(cfg['flagav']), samples]]])[0]
+    mo = ctx.model([avg_wire(cfg)])[0]
     if mo == [-999]:
         ctx.disagree('route=avg;symptom=model_rejects_case', cfg, None, mo, 'wire format error', kind='tie')
         return
@@ -1108,6 +1140,8 @@ def run_case(ctx, cfg):
     r = cfg.get('route')
     if r == 'vvtable':
         return check_real_table(ctx)
+    if r == 'extraction':
+        return cross_check_extraction(ctx)
     if r not in ROUTES:
         raise ValueError('unknown route %r' % r)
     if not ctx.model_ok:
@@ -1132,16 +1166,18 @@ def run(ctx):
         return random.Random(ctx.rng.getrandbits(48))
     for _ in range(ctx.scale(250, 6000)):
         run_kernel(ctx, gen_kernel(sub()))
-    for _ in range(ctx.scale(120, 2500)):
+    for _ in range(ctx.scale(160, 2500)):
         run_vfw(ctx, gen_vfw(sub()))
     for _ in range(ctx.scale(300, 8000)):
         run_avg(ctx, gen_avg(sub()))
-    for _ in range(ctx.scale(20, 300)):
+    for _ in range(ctx.scale(30, 300)):
         run_v4(ctx, gen_v4(sub()))
-    for _ in range(ctx.scale(12, 150)):
+    for _ in range(ctx.scale(20, 150)):
         run_v3(ctx, gen_v3(sub()))
-    for _ in range(ctx.scale(8, 120)):
+    for _ in range(ctx.scale(10, 120)):
         run_vv(ctx, gen_vv(sub()))
+    if ctx.tier == 'thorough':
+        cross_check_extraction(ctx)
     ctx.exhaustive = False
 
 
